@@ -230,6 +230,69 @@ def sweep(fx, R):
                                    'OLD %s (or from nothing, for a default-constructed object that is configured afterwards)' % (D, S_, pp(i['e'])[:80], setters[0], S_, D, S_), fx.rel(g['loc']), 'E-STATE')
                     elif used:
                         R.holds('H8', inst, 'derived from %s, which no method re-assigns without it' % S_, fx.rel(g['loc']), 'E-STATE')
+    # ---- H10: a member filled from an ARGUMENT under a condition that does not look at the argument, and used in its place afterwards ------------------------
+    # `if (cache_.size() != n) cache_.assign(n, value);  ... use cache_ ...`: the first call decides the value for good; a later call with another argument silently uses the old one.
+    for f in sorted(fns, key=lambda f: f['q']):
+        cls = f.get('cls')
+        if not cls or f.get('ctor') or f.get('body') is None or not f.get('params'):
+            continue
+        params = {p_['id']: p_['name'] for p_ in f['params']}
+        for x in walk(f['body']):
+            if not (isinstance(x, dict) and x.get('k') == 'If' and x.get('e') is None):
+                continue
+            cond_params = {y['id'] for y in walk(x['c']) if isinstance(y, dict) and y.get('k') == 'Ref' and y.get('id') in params}
+            fills = []
+            for y in walk(x.get('t')):
+                if not isinstance(y, dict):
+                    continue
+                tgt, rhs_nodes = None, []
+                if (y.get('k') == 'Bin' and y.get('op') == '=') or (y.get('k') == 'Op' and y.get('op') == '=' and len(y.get('args', [])) == 2):
+                    l_, r_ = (y['l'], y['r']) if y.get('k') == 'Bin' else (y['args'][0], y['args'][1])
+                    l0 = strip_casts(l_)
+                    if l0.get('k') == 'Member' and l0.get('field') and l0.get('cls') == cls:
+                        tgt, rhs_nodes = l0['name'], [r_]
+                elif y.get('k') == 'MCall' and y.get('m') in ('assign', 'resize', 'setConstant', 'fill') and not y.get('inrepo'):
+                    o0 = strip_casts(y.get('obj'))
+                    if o0.get('k') == 'Member' and o0.get('field') and o0.get('cls') == cls:
+                        tgt, rhs_nodes = o0['name'], list(y.get('args', []))
+                if tgt is None:
+                    continue
+                used_p = {z['id'] for r_ in rhs_nodes for z in walk(r_) if isinstance(z, dict) and z.get('k') == 'Ref' and z.get('id') in params}
+                # value parameters (references to values), not sizes that the condition itself checks
+                used_p -= cond_params
+                if used_p:
+                    fills.append((tgt, used_p, y))
+            for (tgt, used_p, node) in fills:
+                cond_members = {y['name'] for y in walk(x['c']) if isinstance(y, dict) and y.get('k') == 'Member' and y.get('field') and y.get('cls') == cls}
+                if tgt not in cond_members:
+                    continue                      # the condition does not guard this member: not a cache idiom
+                # the member is read after the If, and never assigned unconditionally in this function
+                reads_after = False
+                seen_if = False
+                for y in walk(f['body']):
+                    if y is x:
+                        seen_if = True
+                    if seen_if and isinstance(y, dict) and y.get('k') == 'Member' and y.get('name') == tgt and y.get('cls') == cls and not any(y is z for z in walk(x)):
+                        reads_after = True
+                uncond = False
+                for blk in ([f['body']] if f['body'].get('k') == 'Compound' else []):
+                    for top_ in blk['s']:
+                        if top_ is x or any(top_ is z for z in [x]):
+                            continue
+                        if top_.get('k') == 'Expr':
+                            e0 = strip_casts(top_['e'])
+                            l0 = strip_casts(e0['l']) if e0.get('k') == 'Bin' and e0.get('op') == '=' else strip_casts(e0['args'][0]) if e0.get('k') == 'Op' and e0.get('op') == '=' and e0.get('args') else \
+                                strip_casts(e0.get('obj')) if e0.get('k') == 'MCall' and e0.get('m') in ('assign', 'setConstant', 'fill') else None
+                            if l0 is not None and l0.get('k') == 'Member' and l0.get('name') == tgt:
+                                uncond = True
+                inst = '%s:argument-cache:%s' % (f['q'].split('(')[0], tgt)
+                if reads_after and not uncond:
+                    pn = ', '.join(sorted(params[i_] for i_ in used_p))
+                    R.violated('H10', inst, '`%s` is (re)filled from the argument `%s` only when `%s`, a condition that does not look at that argument, and is then used in its place: the FIRST call fixes the value; a later '
+                               'call with another `%s` silently works with the old one, so the result depends on earlier calls and not only on this call\'s arguments' % (tgt, pn, pp(x['c'])[:90], pn),
+                               fx.rel(x.get('loc') or f['loc']), 'E-PURE')
+                else:
+                    R.holds('H10', inst, 'filled from the argument under a condition, but refreshed unconditionally / not used afterwards', fx.rel(x.get('loc') or f['loc']), 'E-PURE')
     # ---- H9: a function of its arguments that hands out a reference to a member it has just written: the results of two calls are one object ----------
     for f in sorted(fns, key=lambda f: f['q']):
         rt = f.get('ret') or {}
